@@ -29,10 +29,10 @@ MANIFEST = dict(
          "length per head offset is what finding C02-chain-single-length violates); the bytecode VM model (yr_re_exec) is sound on the code of the emit model for EVERY hex "
          "AST (HexAst: bytes, ??, nibble masks, ~ negations, jumps, alternatives nested to any depth - no fragment restriction; code below the emitter's int16 jump range) "
          "all buffers, start positions and flags, for the forward code (vm_sound) and for the backward code run with RE_FLAGS_BACKWARDS (vm_sound_backward: every reported "
-         "length L has L <= start and the pattern matches buf[start-L, start)) - the hex instances of the theorems for all well-formed expressions of Thm/C03. the verification step around an atom is sound for every candidate offset: forward code entered at the atom node's instruction + backward code entered behind it, reporting lf and lb, imply that the whole pattern matches buf[o-lb, o+lf) (verify_from_atom_sound: all hex ASTs, every byte / masked / ?? node, all buffers and offsets - so the soundness of the chain atoms -> automaton -> scan -> verification needs nothing about atoms or the automaton); the scan of one hex string in one block is sound end to end over the model chain candidates -> verification (forward + exhaustive backward run from the entry's code positions) -> match callback -> match list, for ANY candidate list whose entries point to atom nodes of the pattern or are the zero-length atom (hex_scan_sound, Model/ReScan.lean); the atoms handed to yr_ac_add_string (Model/ReAtoms.lean: walk with the sliding window, trim, OR/AND tree, choice - for EVERY quality function - wildcard expansion, wide / nocase variants, zero-length atom) cover every match: along every match [p,q) of a hex AST one of these byte sequences occurs literally at a position s where the pattern splits into the part before the atom's node (matching [p,s)), the node, and the rest (up to q), and the code positions recorded for the atom are the entry points of verify_from_atom_sound (reAtoms_cover); NOT proved: VM soundness for the fast "
+         "length L has L <= start and the pattern matches buf[start-L, start)) - the hex instances of the theorems for all well-formed expressions of Thm/C03. the verification step around an atom is sound for every candidate offset: forward code entered at the atom node's instruction + backward code entered behind it, reporting lf and lb, imply that the whole pattern matches buf[o-lb, o+lf) (verify_from_atom_sound: all hex ASTs, every byte / masked / ?? node, all buffers and offsets - so the soundness of the chain atoms -> automaton -> scan -> verification needs nothing about atoms or the automaton); splitting at the chaining points (Model/ReSplit.lean: every top-level non-greedy jump with n > 200 or m > 200, whatever its width, that has siblings on both sides) preserves the language: the pattern matches iff its pieces match one after the other with every gap inside the jump's bounds (chain_split_sem); the scan of one hex string in one block is sound end to end over the model chain candidates -> verification (forward + exhaustive backward run from the entry's code positions) -> match callback -> match list, for ANY candidate list whose entries point to atom nodes of the pattern or are the zero-length atom (hex_scan_sound, Model/ReScan.lean); the atoms handed to yr_ac_add_string (Model/ReAtoms.lean: walk with the sliding window, trim, OR/AND tree, choice - for EVERY quality function - wildcard expansion, wide / nocase variants, zero-length atom) cover every match: along every match [p,q) of a hex AST one of these byte sequences occurs literally at a position s where the pattern splits into the part before the atom's node (matching [p,s)), the node, and the rest (up to q), and the code positions recorded for the atom are the entry points of verify_from_atom_sound (reAtoms_cover); NOT proved: VM soundness for the fast "
          "matcher yr_re_fast_exec, VM completeness (hence completeness of the chain: reAtoms_cover supplies the atom occurrence and the split of the match), the automaton contract for masked atoms, chains of more than two pieces, atom extraction and Aho-Corasick. That gap is covered by SAMPLING on every run: generated patterns x buffers through the real engine vs. the compiled Lean specification "
          "(complete match lists, both directions of the iff), the parser AST tie, the real bytecode through the C VM and the Lean VM model (exact agreement incl. callback "
-         "order), the whole-pattern code run exhaustively vs. the specification, the Lean emit model vs. the bytes yr_re_ast_emit_code writes, and the Lean model of atoms.c (heuristic quality included) vs. the atoms the compiler inserts into the automaton (hook H3) and the code positions of their entries.",
+         "order), the whole-pattern code run exhaustively vs. the specification, the Lean emit model vs. the bytes yr_re_ast_emit_code writes, the Lean model of the chaining split vs. the chain the compiler builds (pieces, gap_min / gap_max), and the Lean model of atoms.c (heuristic quality included) vs. the atoms the compiler inserts into the automaton (hook H3) and the code positions of their entries.",
     design_ref="DESIGN.md §4 D6/D7, §5 C02",
     note=core.TB + "The hex printer and the oracle comparator (vf/checks/re_common.py) are trusted (the printer is inside the AST tie). Spec decisions: a chained string reports "
                    "ONE admissible length; matches never span blocks; every piece stays below the 1024-byte window YR_RE_SCAN_LIMIT. Known finding "
@@ -438,9 +438,48 @@ def gen_chain_decoy(r):
     return seq, bytes(buf[:9000])
 
 
+def gen_big_jump(r):
+    """pieces of 2-4 fixed bytes separated by FIXED or NARROW large jumps (`[n]`, `[n-m]` with m-n < 200) at the chaining
+    threshold (200 / 201), around YR_RE_SCAN_LIMIT minus the literal lengths (1000-1030), and far beyond (1100, 3000): the
+    compiler must split at every jump with n > 200 or m > 200 whatever its width, a REPEAT_ANY instruction only verifies
+    within 1024 bytes of the atom.  Buffers hold the genuine occurrence(s) at gap n / m / between, and near misses."""
+    pool = r.sample([0x11, 0x22, 0x33, 0x44, 0x55, 0x66, 0x77, 0x88, 0x99, 0xAB, 0xCD, 0xEF, 0x12, 0x34, 0x56, 0x78], 16)
+    def piece():
+        return [("b", pool.pop()) for _ in range(r.choice([2, 3, 4, 4]))]
+    def jump():
+        u = r.random()
+        if u < 0.55:
+            n = r.choice([200, 201, 1000, 1012, 1015, 1016, 1017, 1018, 1019, 1020, 1024, 1030, 1100, 3000, r.randint(1005, 1030)])
+            return ("j", n, n, "n")
+        lo = r.choice([199, 200, 201, 1000, 1010, 1016, 2000, r.randint(1000, 1024)])
+        hi = lo + r.choice([1, 2, 30, 100, 199])
+        return ("j", lo, hi, "nm")
+    np_ = r.choice([2, 2, 2, 3])
+    ps = [piece() for _ in range(np_)]
+    js = [jump() for _ in range(np_ - 1)]
+    seq = []
+    for i, p in enumerate(ps):
+        seq += p
+        if i < len(js): seq.append(js[i])
+    fill = lambda n: bytes(r.choice([0x00, 0x37, 0x38, 0xF0]) for _ in range(n))
+    raw = lambda p: bytes(t[1] for t in p)
+    buf = bytearray(fill(r.choice([0, 0, 5])))
+    for _ in range(r.choice([1, 1, 2])):
+        for i, p in enumerate(ps):
+            buf += raw(p)
+            if i < len(js):
+                lo, hi = js[i][1], js[i][2]
+                buf += fill(r.choice([lo, hi, (lo + hi) // 2, lo, hi, max(0, lo - 1), hi + 1]))
+        buf += fill(r.choice([0, 3, 40]))
+    return seq, bytes(buf[:16000])
+
+
 def gen_case(r, cid):
-    if r.random() < 0.07:
+    u0 = r.random()
+    if u0 < 0.07:
         seq, buf = gen_chain_decoy(r)
+    elif u0 < 0.15:
+        seq, buf = gen_big_jump(r)
     else:
         seq = gen_pattern(r)
         buf = gen_buffer(r, seq)
@@ -463,6 +502,10 @@ CORPUS = [
     # three pieces, a decoy of the middle piece beyond the pruning window behind the head, before the tail
     ("A1 A2 A3 [0-300] B1 B2 B3 [0-5000] C1 C2 C3", bytes([0xA1, 0xA2, 0xA3]) + b"\0" * 7 + bytes([0xB1, 0xB2, 0xB3]) + b"\0" * 1987 + bytes([0xB1, 0xB2, 0xB3]) + b"\0" * 997 + bytes([0xC1, 0xC2, 0xC3]) + b"\0"),
     ("A1 A2 A3 [0-300] B1 B2 B3 [300-] C1 C2 C3", bytes([0xA1, 0xA2, 0xA3]) + b"\0" * 7 + bytes([0xB1, 0xB2, 0xB3]) + b"\0" * 1987 + bytes([0xB1, 0xB2, 0xB3]) + b"\0" * 997 + bytes([0xC1, 0xC2, 0xC3]) + b"\0"),
+    # fixed / narrow jumps beyond the 1024-byte verification window must be chaining points
+    ("01 02 03 04 [1017] 05 06 07 08", bytes([1, 2, 3, 4]) + b"\0" * 1017 + bytes([5, 6, 7, 8])),
+    ("01 02 03 04 [3000] 05 06 07 08", bytes([1, 2, 3, 4]) + b"\0" * 3000 + bytes([5, 6, 7, 8])),
+    ("01 02 03 04 [2000-2199] 05 06 07 08", bytes([1, 2, 3, 4]) + b"\0" * 2100 + bytes([5, 6, 7, 8])),
     # the best atom window is interior and begins with a wildcard (atoms.c window shift)
     ("10 ?? 41 42 43 ?? 20 30", b"\x00\x00\x00\x00" + bytes([0x10, 0x99, 0x41, 0x42, 0x43, 0x77, 0x20, 0x30]) + b"\x00"),
     ("1? ?? 41 42 43 ?? 2?", b"\x00\x00\x00\x00" + bytes([0x1A, 0x99, 0x41, 0x42, 0x43, 0x77, 0x2B]) + b"\x41\x42\x43"),
@@ -607,13 +650,15 @@ def run(tier, replay=None):
     wres, wfound = rc.check_wfx(core, chk, b, cases, lambda l, kind, err: False, found_so_far=found) if lres.get("driver_ok") else ({}, False)
     ares, afound = rc.check_atoms(core, chk, cases, imap, amap, found_so_far=found) if lres.get("driver_ok") else ({}, False)
     found = found or afound
+    cres, cfound = rc.check_chain(core, chk, cases, amap) if lres.get("driver_ok") else ({}, False)
+    found = found or cfound
     found = found or wfound
     chk.cov.update({
         "evaluations": len(cases) + len(mal), "distinct_nontrivial": len(distinct),
         "rule": "generated hex pattern x buffer built from instances / near-misses of the pattern; non-trivial = the specification admits at least one match in the buffer "
                 "(distinct (pattern, buffer) pairs)",
         "histogram": hist, "malformed_rejected": nmal, "violating_cases": nviol, "known_finding_cases": {k: len(v) for k, v in known_hits.items()},
-        "traces_validated_against_impl": len(cases) - nviol, "fx": fxres.get("cov"), "wfx": wres, "atoms_tie": ares,
+        "traces_validated_against_impl": len(cases) - nviol, "fx": fxres.get("cov"), "wfx": wres, "atoms_tie": ares, "chain_tie": cres,
         "samples": [{"case_meta": metas.get(cases[min(len(cases) - 1, len(CORPUS))].split(" ", 1)[0]), "implementation": (impl[min(len(impl) - 1, len(CORPUS))][:300] if impl else None),
                      "model": (model[min(len(model) - 1, len(CORPUS))][:300] if model else None)}],
     })
